@@ -129,7 +129,7 @@ func c14sBody(sc c14sScn) func(x *vs.Exec) {
 			}
 			vs.Sleep(11 * time.Second) // everybody is past the grace period
 		})
-		if !s.Run() {
+		if !s.Run() && !s.Free {
 			x.Fail("deadlock", "setup: %s", s.Deadlock)
 			return
 		}
@@ -298,6 +298,22 @@ func TestVerifC14Sched(t *testing.T) {
 				return
 			}
 		}
+		return
+	}
+	if vs.FreeMode() {
+		// free-running pass for the race detector (validates the data-race-freedom assumption of the scheduler)
+		r := vrep.New("C14", "race-pass")
+		dl := vrep.Deadline()
+		n := 0
+		for time.Now().Before(dl) {
+			for _, sc := range scs {
+				runs, _ := vs.FreeRun(t, c14sScenario(sc), 3, dl)
+				n += runs
+			}
+		}
+		r.Executions = int64(n)
+		r.Note("free-running executions: %d", n)
+		r.Flush()
 		return
 	}
 	si, sn := vrep.Shard()
